@@ -138,8 +138,10 @@ def find_islands(im, bkg, rms,
                 continue
 
             island = PixelIsland()
+            # the box is that of the island's pixels, whatever their values
+            # (a pixel value of exactly zero is still part of the island)
             island.calc_bounding_box(
-                np.array(np.nan_to_num(data_box), dtype=bool),
+                ~island_mask,
                 offsets=[xmin, ymin]
             )
             island.set_mask(island_mask)
